@@ -5,6 +5,7 @@ package main
 
 import (
 	"fmt"
+	"sort"
 	"go/ast"
 	"go/constant"
 	"go/token"
@@ -26,6 +27,7 @@ type specEnv struct {
 	preferCells bool // loop invariants: names denote current values of locals
 	clause      *Clause
 	specDepth   int
+	callID      *Term
 }
 
 type specError struct{ msg string }
@@ -161,6 +163,11 @@ func (env *specEnv) lookupIdent(name string) (Value, bool) {
 				return v, true
 			}
 			return zeroValue(c.typ), true
+		}
+	}
+	if !env.calleeCtx {
+		if pv, ok := ex.heapLocals[name]; ok {
+			return ex.load(env.st, ex.addrOf(pv)), true
 		}
 	}
 	switch name {
@@ -650,6 +657,11 @@ func (env *specEnv) evalCall(t *ast.CallExpr) Value {
 			k := env.toType(env.eval(t.Args[1]), mt.Key())
 			_, in := env.ex.mapLookup(env.st, m.T, m.C[0], k)
 			return boolV(in)
+		case "callid":
+			if env.callID == nil {
+				env.fail("callid() is only available in a callee contract applied at a call site")
+			}
+			return Value{T: intT, C: []*Term{env.callID}}
 		case "isnil":
 			x := env.eval(t.Args[0])
 			return boolV(Eq(x.C[0], IntC(0)))
@@ -657,6 +669,14 @@ func (env *specEnv) evalCall(t *ast.CallExpr) Value {
 			// fresh(p): p was allocated after function entry
 			x := env.eval(t.Args[0])
 			return boolV(ILe(env.ex.root().entry.alloc, x.C[0]))
+		case "unwrap":
+			// unwrap(x, T): the value of dynamic type T stored in interface value x (pointer-shaped T only)
+			x := env.eval(t.Args[0])
+			ty := eng.resolveType(t.Args[1], env.pkgPath)
+			if ty == nil || len(shapeOf(ty)) != 1 {
+				env.fail("unwrap expects a pointer-shaped type")
+			}
+			return Value{T: ty, C: []*Term{x.C[1]}}
 		case "typeis":
 			// typeis(x, T): dynamic type of interface value x is T
 			x := env.eval(t.Args[0])
@@ -678,9 +698,13 @@ func (env *specEnv) evalCall(t *ast.CallExpr) Value {
 			return env.callSpec(sf, t.Args)
 		}
 		if g := eng.cs.Ghosts[id.Name]; g != nil {
-			cls, key := env.ghostRef(g, t.Args)
+			clss, key := env.ghostRef(g, t.Args)
 			rt := eng.resolveType(g.Result, g.PkgPath)
-			return Value{T: rt, C: []*Term{env.ex.heapOf(env.st, cls).Read(key)}}
+			v := Value{T: rt}
+			for _, cls := range clss {
+				v.C = append(v.C, env.ex.heapOf(env.st, cls).Read(key))
+			}
+			return v
 		}
 		// package-level Go function in the contract's package
 		if fn := eng.lookupFunc(env.pkgPath + "." + id.Name); fn != nil {
@@ -903,12 +927,63 @@ func (env *specEnv) callSpec(sf *SpecFunc, argExprs []ast.Expr) Value {
 	for _, a := range args {
 		flat = append(flat, a.C...)
 	}
+	// heap dependence: the uninterpreted symbol is indexed by the identity of the heap
+	// versions of every class the body reads
+	hsfx := ""
+	if sf.Body != nil {
+		for _, cn := range env.specReadClasses(sf, names, args) {
+			cls := eng.classes[cn]
+			if cls == nil {
+				continue
+			}
+			hsfx += fmt.Sprintf("@h%d", env.ex.heapOf(env.st, cls).id)
+		}
+	}
 	sh := shapeOf(rt)
 	res := Value{T: rt}
 	for i, s := range sh {
-		res.C = append(res.C, App(fmt.Sprintf("spec:%s#%d", sf.Name, i), s, flat...))
+		res.C = append(res.C, App(fmt.Sprintf("spec:%s#%d%s", sf.Name, i, hsfx), s, flat...))
 	}
 	return res
+}
+
+// specReadClasses: heap classes read by the body of a recursive spec function (computed once).
+func (env *specEnv) specReadClasses(sf *SpecFunc, names []string, args []Value) []string {
+	eng := env.ex.eng
+	if cs, ok := eng.specReads[sf.Name]; ok {
+		return cs
+	}
+	eng.specReads[sf.Name] = nil // recursion guard: nested applications see no dependence while recording
+	r := env.ex.root()
+	saved := r.readLog
+	r.readLog = map[string]bool{}
+	func() {
+		defer func() {
+			if x := recover(); x != nil {
+				if _, ok := x.(unsupported); !ok {
+					panic(x)
+				}
+			}
+		}()
+		ne := *env
+		ne.vars = map[string]Value{}
+		for i, n := range names {
+			ne.vars[n] = args[i]
+		}
+		ne.calleeCtx = true
+		ne.pkgPath = sf.PkgPath
+		ne.specDepth++
+		ne.st = env.st.clone()
+		ne.eval(sf.Body)
+	}()
+	var out []string
+	for cn := range r.readLog {
+		out = append(out, cn)
+	}
+	sort.Strings(out)
+	r.readLog = saved
+	eng.specReads[sf.Name] = out
+	return out
 }
 
 // unfold f(args): assume f(args) == body[args] for a recursive spec function.
@@ -1097,8 +1172,8 @@ func (env *specEnv) locOf(e ast.Expr) []*locRef {
 	case *ast.CallExpr:
 		if id, ok := t.Fun.(*ast.Ident); ok {
 			if g := ex.eng.cs.Ghosts[id.Name]; g != nil {
-				cls, key := env.ghostRef(g, t.Args)
-				return []*locRef{{classes: []*HeapClass{cls}, key: key}}
+				clss, key := env.ghostRef(g, t.Args)
+				return []*locRef{{classes: clss, key: key}}
 			}
 		}
 		env.fail("bad location %s", exprString(e))
@@ -1116,7 +1191,7 @@ func (env *specEnv) locOf(e ast.Expr) []*locRef {
 	return nil
 }
 
-func (env *specEnv) ghostRef(g *GhostDecl, argExprs []ast.Expr) (*HeapClass, []*Term) {
+func (env *specEnv) ghostRef(g *GhostDecl, argExprs []ast.Expr) ([]*HeapClass, []*Term) {
 	eng := env.ex.eng
 	var key []*Term
 	var sorts []Sort
@@ -1147,12 +1222,15 @@ func (env *specEnv) ghostRef(g *GhostDecl, argExprs []ast.Expr) (*HeapClass, []*
 		sorts = []Sort{IntSort}
 	}
 	rt := eng.resolveType(g.Result, g.PkgPath)
-	sh := shapeOf(rt)
-	if len(sh) != 1 {
-		env.fail("ghost %s: scalar result expected", g.Name)
+	if rt == nil {
+		env.fail("ghost %s: unknown result type", g.Name)
 	}
-	cls := eng.class("G:"+g.Name, sorts, sh[0], false)
-	return cls, key
+	sh := shapeOf(rt)
+	var clss []*HeapClass
+	for j, srt := range sh {
+		clss = append(clss, eng.class(fmt.Sprintf("G:%s#%d", g.Name, j), sorts, srt, false))
+	}
+	return clss, key
 }
 
 func (ex *executor) havocLoc(st *state, l *locRef, bound *Term) {
